@@ -147,6 +147,9 @@ func (e *env) to1(dev *lab.Device, key crypto.Signer, h hooks) outcome {
 			o.resp30Type = x.RespType
 			if it, _, err := rc.Parse(x.RespBody); err == nil && x.RespType == 31 && it.Kind == rc.Array && len(it.Items) >= 1 {
 				o.nonce = it.Items[0].B
+				if k, w := fresh.Note(e.kind.Name+" TO1.HelloRVAck", o.nonce); k != "" {
+					r.Violation(k, w, nil)
+				}
 			}
 		case 32:
 			o.resp32Type, o.resp32 = x.RespType, bytes.Clone(x.RespBody)
@@ -213,6 +216,8 @@ func (e *env) refRelease(req32 []byte, nonce []byte, expired bool) (bool, string
 	return true, ""
 }
 
+var fresh lab.Fresh
+
 func (e *env) judgeServer(class, what string, o outcome, expired bool, wantRelease *bool) {
 	r.Evaluations.Add(1)
 	repl := map[string]any{"kind": e.kind.Name, "class": class, "what": what, "req30": hex.EncodeToString(o.req30), "req32": hex.EncodeToString(o.req32), "nonce": hex.EncodeToString(o.nonce), "expired": expired}
@@ -234,6 +239,9 @@ func (e *env) judgeServer(class, what string, o outcome, expired bool, wantRelea
 		} else {
 			why = "not decodable"
 		}
+	}
+	if released && class == "replay" {
+		r.Violation("released-on-replay", fmt.Sprintf("%s %s (%s): the RV server returned the redirect for a ProveToRV recorded in an earlier session", e.kind.Name, class, what), repl)
 	}
 	if released && !ok {
 		r.Violation("released-without-proof:"+class, fmt.Sprintf("%s %s (%s): RV server returned the redirect although the reference predicate fails: %s", e.kind.Name, class, what, why), repl)
